@@ -7,6 +7,7 @@ from __future__ import annotations
 
 import ast
 
+from ..absval import Native
 from ..astq import comes_before, arg, ext_names, handler_catches_all, handler_classes, inside, is_name, loc, lock_withs, names_in, stmt_of, in_body
 from ..cfg import CFG, any_call_may_raise
 from ..model import AnalysisError, Func, head, norm
@@ -89,6 +90,10 @@ def check(ctx):
     ctx.rule("C20.R2", "update thread: after the done-wait returns true the render step still runs before the loop exits; the render step clears the stale flag under the lock")
     ctx.rule("C20.R3", "__exit__ sets the done event, then joins the update thread")
     ctx.rule("C20.R4", "each notification method takes the lock, sets the stale flag and forwards (section, scope[, amount]) to the same-named state method")
+    ctx.rule("C20.R10", "the render methods of the console and HTML displays evaluated on states produced by the package's own counting state (nothing announced, stale check only, no 'run' section, dry run, mixed with a recorded exception) over string / number / tuple / None / HTML-special scope values: a rendering comes back, nothing is raised")
+    ctx.run(rule_renderers_evaluated, "C20.R10")
+    ctx.rule("C20.R9", "the bundled displays as the package configures them (the constant timing arguments of every constructor / partial of a concrete display in the progress package): the update thread, evaluated with a clock that advances between its wake-ups and nothing changing, does not die and still renders the final state")
+    ctx.run(rule_displays_as_configured, "C20.R9")
     ctx.rule("C20.R8", "exceptions are part of the state to render: every formatting of a recorded exception by the traceback module in the progress package (format_exception and friends can raise on exceptions they cannot format, e.g. a SyntaxError whose text is not a str) is guarded by an Exception-wide fallback")
     ctx.run(rule_exception_formatting_guarded, "C20.R8")
     ctx.rule("C20.R7", "the counting state evaluated with a scripted clock on every legal notification sequence of up to four events over two scopes (elapsed-time attribution interleaved anywhere, up to three calls running): counts equal the events, nothing negative, the scopes' elapsed times add up to the time during which at least one call was running")
@@ -299,7 +304,50 @@ def update_thread_of(m):
     return spo, upd[0]
 
 
-def rule_update_thread(ctx, rid, spo, upd, failing_output=False, termination_only=False, sink_outside_lock=False):
+def display_configurations(m, spo):
+    """The bundled displays as the package configures them: constructor calls / functools.partial(...) of concrete observer classes in
+    the progress package, with their constant keyword arguments.  -> [(module, call node, class, {kw: value})]"""
+    out = []
+    for mod in m.modules.values():
+        if not mod.name.startswith("uberjob.progress"):
+            continue
+        for c in ast.walk(mod.tree):
+            if not isinstance(c, ast.Call):
+                continue
+            target = None
+            if isinstance(c.func, ast.Name) and c.func.id == "partial" and c.args and isinstance(c.args[0], ast.Name):
+                target = c.args[0].id
+            elif isinstance(c.func, ast.Name):
+                target = c.func.id
+            if target is None:
+                continue
+            cls = next((k for k in m.classes.values() if k.name == target and spo in k.repo_mro() and k is not spo), None)
+            if cls is None:
+                continue
+            kw = {k.arg: k.value.value for k in c.keywords if k.arg and isinstance(k.value, ast.Constant)}
+            out.append((mod, c, cls, kw))
+    return out
+
+
+def rule_displays_as_configured(ctx, rid):
+    """Every bundled display, with the timing parameters the package itself passes, survives periods in which nothing changes: the
+    update thread is evaluated with a clock that advances by 40 s at every reading, the end of the run placed late (interactions 9, 17
+    and 24) - the idle wake-ups before it compare the elapsed time with the configured intervals."""
+    m = ctx.model
+    spo, upd = update_thread_of(m)
+    cfgs = display_configurations(m, spo)
+    ctx.floor(rid, "bundled display configurations", len(cfgs), 2)
+    for mod, c, cls, kw in cfgs:
+        probs = rule_update_thread(ctx, rid, spo, upd, ctor_kwargs=kw, advancing_clock=True, placements=(9, 17, 24))
+        ok = not probs
+        ctx.ob(rid, f"{cls.name}/as-configured", ok, f"{mod.path.split('/src/')[-1] if '/src/' in mod.path else mod.path}:{c.lineno}",
+               f"{cls.name}({', '.join(f'{k}={v!r}' for k, v in kw.items())}): the update thread survives idle wake-ups and still renders the final state" if ok
+               else f"{cls.name}({', '.join(f'{k}={v!r}' for k, v in kw.items())}): " + "; ".join(f"{w} (end of run at interaction {ks[0]})" for w, ks in probs.items()),
+               norm(c)[:100])
+
+
+def rule_update_thread(ctx, rid, spo, upd, failing_output=False, termination_only=False, sink_outside_lock=False, ctor_kwargs=None,
+                       advancing_clock=False, placements=None):
     """The update thread, evaluated against every placement of the end of the run.
 
     The observer object is built by interpreting SimpleProgressObserver.__init__; lock, done event, clock, _render and _output
@@ -319,8 +367,8 @@ def rule_update_thread(ctx, rid, spo, upd, failing_output=False, termination_onl
     problems = {}
     n_runs = 0
     terminated_without_moment = False
-    for k in range(1, K + 1):
-        st = {"n": 0, "held": False, "fired": None, "pending": False, "set": False, "waits": 0}
+    for k in (placements or range(1, K + 1)):
+        st = {"n": 0, "held": False, "fired": None, "pending": False, "set": False, "waits": 0, "clock": 1000.0}
         events = []
 
         class Attrs(dict):
@@ -387,7 +435,9 @@ def rule_update_thread(ctx, rid, spo, upd, failing_output=False, termination_onl
 
         def clock():
             tick()
-            return 1000.0
+            if advancing_clock:
+                st["clock"] += 40.0
+            return st["clock"]
         lock = Obj(None, {"__enter__": Stub("__enter__", enter), "__exit__": Stub("__exit__", leave),
                           "acquire": Stub("acquire", lambda *a, **kw: enter() or True), "release": Stub("release", leave)}, name="lock")
         event = Obj(None, {"wait": Stub("wait", wait), "is_set": Stub("is_set", is_set), "set": Stub("set", lambda: None)}, name="done")
@@ -396,6 +446,8 @@ def rule_update_thread(ctx, rid, spo, upd, failing_output=False, termination_onl
         try:
             kw = {p_: v_ for p_, v_ in (("initial_update_delay", 0.5), ("min_update_interval", 1.0), ("max_update_interval", 10.0))
                   if p_ in init.params}
+            if ctor_kwargs is not None:
+                kw = {p_: v_ for p_, v_ in ctor_kwargs.items() if p_ in init.params}
             missing = [p_ for p_ in init.params[1:] if p_ not in kw and p_ not in init.defaults]
             if missing:
                 raise AnalysisError(f"unexpected parameters of {init.qualname}: {missing}")
@@ -454,6 +506,8 @@ def rule_update_thread(ctx, rid, spo, upd, failing_output=False, termination_onl
             problems.setdefault(why, []).append(k)
         if terminated_without_moment:
             break
+    if ctor_kwargs is not None:
+        return problems
     if sink_outside_lock:
         ok = not problems
         ctx.ob(rid, f"{upd.short}/sink-outside-lock", ok, loc(upd),
@@ -756,3 +810,141 @@ def rule_scope_ordering_evaluated(ctx, rid):
            f"evaluated on {len(cases)} scope dictionaries with values that are merely hashable and equatable: every item comes back, nothing is raised" if ok
            else "; ".join(bad[:2]))
     return {g}
+
+
+# ------------------------------------------------------------------------------------------------ C20.R10
+class _Buffer(Native):
+    """Checker-side model of io.StringIO."""
+
+    def __init__(self, *a):
+        self.parts = []
+
+    def write(self, s):
+        self.parts.append(str(s))
+        return len(str(s))
+
+    def getvalue(self):
+        return "".join(self.parts)
+
+    def __enter__(self):
+        return self
+
+    def __exit__(self, *exc):
+        return False
+
+    def close(self):
+        pass
+
+
+def _render_states(interp, stc, scopes):
+    """Reachable progress states, produced by driving the package's own counting state with notifications.  -> [(label, mapping, exceptions)]"""
+    from ..absval import Obj
+    out = []
+
+    def fresh():
+        init = stc.lookup("__init__")
+        args = [0] if isinstance(init, Func) and len(init.pos_params) > 1 else []
+        return interp.call(interp.class_val(stc), args, {})
+
+    def note(st, name, *a):
+        return interp.call_func(stc.methods[name], None, list(a), {}, bound_self=st)
+
+    def mapping(st):
+        for v in st.attrs.values():
+            if isinstance(v, dict) and (not v or all(isinstance(x, dict) for x in v.values())):
+                return v
+        raise AnalysisError("State: the section/scope mapping was not found in the evaluated state")
+    a, b = scopes[0], scopes[1]
+    st = fresh()
+    out.append(("nothing announced yet", mapping(st), []))
+    st = fresh()
+    note(st, "increment_total", "stale", a, 2)
+    note(st, "increment_running", "stale", a)
+    out.append(("stale check under way, no 'run' section", mapping(st), []))
+    st = fresh()
+    note(st, "increment_total", "stale", a, 1)
+    note(st, "increment_running", "stale", a)
+    note(st, "increment_completed", "stale", a)
+    out.append(("stale check done, everything fresh: no 'run' section at all", mapping(st), []))
+    st = fresh()
+    note(st, "increment_total", "run", a, 3)
+    note(st, "increment_total", "run", b, 1)
+    out.append(("dry run: totals announced, nothing executed", mapping(st), []))
+    st = fresh()
+    note(st, "increment_total", "stale", a, 1)
+    note(st, "increment_running", "stale", a)
+    note(st, "increment_completed", "stale", a)
+    note(st, "increment_total", "run", a, 3)
+    note(st, "increment_total", "run", b, 1)
+    for _ in range(3):
+        note(st, "increment_running", "run", a)
+    note(st, "increment_completed", "run", a)
+    note(st, "increment_running", "run", b)
+    note(st, "increment_failed", "run", b)
+    exc = Obj(None, {"args": ("boom",)}, name="ValueError")
+    out.append(("mixed: running, completed, failed with a recorded exception", mapping(st),
+                [(b, (Obj(None, {"__name__": "ValueError"}, name="ValueErrorType"), exc, None))]))
+    return out
+
+
+def rule_renderers_evaluated(ctx, rid):
+    """The render methods of the bundled console and HTML displays, evaluated on progress states produced by the package's own
+    counting state - nothing announced yet, a stale check under way, everything fresh (no 'run' section), a dry run (totals only), a
+    mix of running / completed / failed with a recorded exception - over scopes whose values are strings, numbers, tuples, None,
+    text with HTML special characters and a file name with an undecodable byte (a str with a lone surrogate, as os.listdir returns it).  They must return a rendering and not raise."""
+    from ..absval import AbsRaise, Interp, Obj, Stub
+    import html as _html
+    import textwrap as _tw
+    m = ctx.model
+    spo, upd = update_thread_of(m)
+    stc = roles.progress_state(m)
+    cfgs = display_configurations(m, spo)
+    done, bad, n = set(), [], 0
+    for mod, c, cls, kw in cfgs:
+        if cls in done:
+            continue
+        done.add(cls)
+        render = None
+        for nm in spo.methods:
+            if spo.is_abstract_method(nm) and isinstance(cls.lookup(nm), Func) and len(cls.lookup(nm).pos_params) >= 4:
+                render = cls.lookup(nm)
+        if render is None:
+            raise AnalysisError(f"{cls.name}: render method (abstract in {spo.name}, four arguments) not found")
+        if any(ext_names(m, f_, c_) and any(x.split(".")[0] in ("ipywidgets", "IPython") for x in ext_names(m, f_, c_))
+               for f_ in [render] + list(m.reachable([render], kinds=("call",))) for c_ in f_.own_calls()):
+            continue  # the IPython display builds widgets of a third-party library: not evaluated (stated in the level text)
+        for scopes in ((("extract", "load"), ("transform",)), ((1, ("t", 2.5)), (None,)), (("<b>&'x'",), ("a", "b", "c")), (("data-\udcff.csv",), ("ok",))):
+            printed = []
+
+            def _print(*a, sep=" ", end=chr(10), file=None, flush=False):
+                text = sep.join(str(x) for x in a) + end
+                (file.write(text) if file is not None else printed.append(text))
+            interp = Interp(m, ext={"io.StringIO": _Buffer, "builtins.print": _print, "html.escape": _html.escape, "textwrap.indent": _tw.indent,
+                                    "time.time": lambda: 1000.0, "threading.Lock": lambda: Obj(None, {}, "lock"), "threading.Event": lambda: Obj(None, {}, "event"),
+                                    "threading.Thread": lambda *a, **k: Obj(None, {}, "thread"),
+                                    "datetime.datetime.utcnow": lambda: Obj(None, {"strftime": Stub("strftime", lambda f_: "2026-01-01 00:00:00"),
+                                                                                   "isoformat": Stub("isoformat", lambda *a: "2026-01-01T00:00:00")}, name="now"),
+                                    "datetime.datetime.now": lambda *a: Obj(None, {"strftime": Stub("strftime", lambda f_: "2026-01-01 00:00:00"),
+                                                                                  "isoformat": Stub("isoformat", lambda *a: "2026-01-01T00:00:00")}, name="now"),
+                                    "traceback.format_exception": lambda *a, **k: ["Traceback (most recent call last):" + chr(10), "ValueError: boom" + chr(10)],
+                                    "builtins.type": lambda x: type(x)})
+            try:
+                states = _render_states(interp, stc, scopes)
+                me = Obj(cls, {}, name="display")
+                init = cls.lookup("__init__")
+                pos = [Stub("sink", lambda *a, **k: None)] * max(0, len([p_ for p_ in init.pos_params[1:] if p_ not in init.defaults])) if isinstance(init, Func) else []
+                interp.call_func(init, None, pos, dict(kw), bound_self=me)
+            except AbsRaise as e:
+                raise AnalysisError(f"{cls.name}: building the display / the states raised {e.value!r}")
+            for label, mapping, excs in states:
+                n += 1
+                try:
+                    out = interp.call_func(render, None, [mapping, 0, excs, 12.5], {}, bound_self=me)
+                    if out is None or (isinstance(out, (str, bytes)) and not out):
+                        bad.append(f"{cls.name} on '{label}' (scopes {scopes[0]!r}...): returns nothing")
+                except AbsRaise as e:
+                    bad.append(f"{cls.name} on '{label}' (scopes {scopes[0]!r}...): raises {str(getattr(e.value, 'name', e.value))[:80]} - in the update thread, which then stops rendering")
+    ok = not bad
+    ctx.ob(rid, "DISPLAYS/render-evaluated", ok, loc(spo.methods.get("__init__") or next(iter(spo.methods.values()))),
+           f"evaluated: the console and HTML renderers return a rendering for each of {n} (state, scope kind) combinations" if ok else "; ".join(bad[:3]))
+    ctx.floor(rid, "renderings evaluated", n, 20)
